@@ -163,7 +163,7 @@ fn c04_ipv6_tcp_20() {
 
 //# harness: c04_ipv6_tcp_23
 //# props: C04 C03
-//# tier: thorough
+//# tier: extended
 //# encodes: layer_3::ipv6::repl
 //# encodes: pnet_packet checksum helpers (icmpv6::checksum, tcp::ipv6_checksum, udp::ipv6_checksum)
 //# bounds: 40-byte IPv6 request header symbolic (version, traffic class, flow label, payload length, hop limit free; source and destination address: octets 0, 14, 15 symbolic, others zero), next header = TCP, 21 transport bytes in the request; layer-4 reply of 23 arbitrary bytes or silence (ICMPv6: echo-style reply, or type 136 + solicited target); no self-IP list and no deny list (the scope filters are decided by c02_ipv6_scope_* and *_other_proto)
@@ -248,7 +248,7 @@ fn c04_ipv6_icmp_8() {
 
 //# harness: c04_ipv6_icmp_33
 //# props: C04 C03
-//# tier: thorough
+//# tier: extended
 //# encodes: layer_3::ipv6::repl
 //# encodes: pnet_packet checksum helpers (icmpv6::checksum, tcp::ipv6_checksum, udp::ipv6_checksum)
 //# bounds: 40-byte IPv6 request header symbolic (version, traffic class, flow label, payload length, hop limit free; source and destination address: octets 0, 14, 15 symbolic, others zero), next header = ICMPv6, 24 transport bytes in the request; layer-4 reply of 33 arbitrary bytes or silence (ICMPv6: echo-style reply, or type 136 + solicited target); no self-IP list and no deny list (the scope filters are decided by c02_ipv6_scope_* and *_other_proto)
